@@ -62,6 +62,8 @@ def run_task(args):
     try:
         L = _load(modname, tier, ov_key, ov)
         for o in L.obligations():
+            if o["name"] == name and o["opts"].get("native_only"):
+                return native_only_result(modname, o)
             if o["name"] == name:
                 r = contracts.run_harness(L, o, _cfg(tier))
                 r["module"] = modname
@@ -72,6 +74,29 @@ def run_task(args):
         import traceback
         return {"module": modname, "name": name, "problems": [f"error:{type(e).__name__}: {e}\n{traceback.format_exc(limit=8)}"],
                 "clauses": [], "paths": 0, "paths_ok": 0, "n_problems": 1}
+
+
+def native_only_result(modname, ob):
+    """Bounded stand-in: a harness that is only executed natively (CPython, real library), on every run."""
+    t0 = time.time()
+    ans = native_batch([{"module": modname, "name": ob["name"], "inputs": {}}])[0]
+    clauses = []
+    problems = []
+    if "error" in ans:
+        problems.append("error:native harness failed: " + str(ans["error"])[:300])
+    elif ans.get("escaped"):
+        problems.append("error:native harness raised " + str(ans["escaped"])[:300])
+    labels = {}
+    for l, ok in ans.get("labels", []):
+        labels[l] = labels.get(l, True) and ok
+    for l, ok in labels.items():
+        clauses.append({"label": l, "kind": "native", "paths": 1, "discharged": 1 if ok else 0,
+                        "failed": [] if ok else [{"model": {}, "detail": "native bounded check failed", "backend": "cpython"}],
+                        "unknown": [], "backends": {"cpython-native": 1}, "secs": 0.0})
+    return {"module": modname, "props": ob["props"], "name": ob["name"], "kind": ob["kind"], "paths": 1, "paths_ok": 1,
+            "clauses": clauses, "problems": problems, "n_problems": len(problems), "trusted": [], "covers": [], "notes": [],
+            "summaries_used": [], "inlined": [], "verifies": [], "solver_secs": 0.0, "solver_calls": 0,
+            "wall_s": round(time.time() - t0, 3), "bounded": ob["opts"].get("bounded") or "native execution only", "hashes": {}}
 
 
 def native_batch(requests, repo=REPO):
